@@ -506,3 +506,56 @@ func genC05(tier string, rng *Rng) []Case {
 	}
 	return out
 }
+
+// ---------- C15 (end to end): ranges on misses and hits, fixed-length and chunked origins ----------
+
+func genC15Hist(tier string, rng *Rng) []Case {
+	var out []Case
+	alphabet := "abcdefghijklmnopqrstuvwxyz"
+	maxN, maxV := 12, 14
+	per := 14
+	rounds := 1
+	if tier == "thorough" {
+		rounds = 12
+	}
+	for round := 0; round < rounds; round++ {
+		for n := 0; n <= maxN; n++ {
+			for _, chunked := range []bool{false, true} {
+				g := &histGen{rng: rng}
+				body := alphabet[:n]
+				hdrs := []KV{{"Content-Type", "text/plain"}, {"Cache-Control", "max-age=600"}}
+				if !chunked {
+					hdrs = append(hdrs, KV{"Content-Length", fmt.Sprint(n)})
+				}
+				g.script(Behaviour{Status: 200, Hdrs: hdrs, Body: body})
+				mkRange := func() string {
+					a, b := rng.Intn(maxV+1), rng.Intn(maxV+1)
+					switch rng.Intn(8) {
+					case 0, 1, 2:
+						if a > b {
+							a, b = b, a
+						}
+						return fmt.Sprintf("bytes=%d-%d", a, b)
+					case 3, 4:
+						return fmt.Sprintf("bytes=%d-", a)
+					case 5, 6:
+						return fmt.Sprintf("bytes=-%d", a)
+					}
+					return rng.Pick(malformedRanges)
+				}
+				for i := 0; i < per; i++ {
+					p := fmt.Sprintf("/c/p%d", i)
+					g.req("GET", p, KV{"Range", mkRange()}) // miss, filled by this very request
+					g.req("GET", p, KV{"Range", mkRange()}) // hit
+					if rng.Chance(20, 100) {
+						g.req("HEAD", p, KV{"Range", mkRange()})
+					}
+				}
+				g.req("GET", "/c/full") // no Range at all
+				g.req("GET", "/c/full", KV{"Range", mkRange()})
+				out = append(out, mkCacheCase([]Rule{cacheRule()}, g.ops, nil))
+			}
+		}
+	}
+	return out
+}
